@@ -95,6 +95,9 @@ pub fn check_osc(c: &OscCase, st: &mut Stats) -> CheckResult {
         _ => None,
     };
 
+    // exact regime with steps far below 2^-64 (subnormal): the phase is the plain f64 sum of the steps, which is exact
+    let subnormal_regime = c.exact && steps.iter().all(|s| *s < 2f64.powi(-1040)) && steps.iter().any(|s| *s > 0.0) && c.frames <= 4096;
+    let mut sub_acc = 0.0f64;
     let mut acc: i128 = 0; // exact sum of steps, modulo 2^64 (i.e. modulo 1.0), in 2^-64 units
     let mut inexact_steps = 0u64;
     // accumulated rounding allowance: each `(phase + step) % 1.0` rounds once, by at most half an ulp of phase + step
@@ -116,7 +119,9 @@ pub fn check_osc(c: &OscCase, st: &mut Stats) -> CheckResult {
             ensure!(phase == 0.0, "the phase does not start at 0 (got {})", phase);
         }
         let model = (acc & mask) as f64 / TWO64;
-        if c.exact {
+        if subnormal_regime {
+            ensure!(phase == sub_acc, "frame {}: phase {:e} but the (exact) sum of the subnormal steps so far is {:e}", n, phase, sub_acc);
+        } else if c.exact {
             ensure!(inexact_steps == 0, "bad case: exact regime with a step that is not a multiple of 2^-64");
             ensure!(phase == model, "frame {}: phase {} but the sum of frequency/rate steps wrapped into [0,1) is {}", n, phase, model);
         } else {
@@ -151,6 +156,7 @@ pub fn check_osc(c: &OscCase, st: &mut Stats) -> CheckResult {
         // advance the model
         let s = if hz_len.map_or(false, |l| n >= l) { 0.0 } else { steps[(n % steps.len() as u64) as usize] };
         tol_acc += 2f64.powi(-52) * (phase + s);
+        sub_acc += s;
         tiny_step |= s > 0.0 && s < f64::EPSILON;
         // only the fractional part of a step moves the wrapped phase; `s % 1.0` is exact in f64
         match scaled_round(s % 1.0) {
@@ -170,6 +176,7 @@ pub fn check_osc(c: &OscCase, st: &mut Stats) -> CheckResult {
     st.class_if(c.exact, "exact regime");
     st.class_if(hz.iter().any(|h| *h == 0.0), "zero frequency");
     st.class_if(tiny_step, "step below 2^-52 (but not zero)");
+    st.class_if(subnormal_regime, "subnormal steps (exact)");
     st.class_if(rate < 1.0, "rate below 1");
     st.class_if(hz_len.map_or(false, |l| l < c.frames), "frequency signal exhausted during the run");
     Ok(())
@@ -271,8 +278,16 @@ fn step_strategy(exact: bool) -> BoxedStrategy<f64> {
 pub fn osc_strategy(max_frames: u64) -> impl Strategy<Value = OscCase> {
     (any::<bool>(), 0u32..5).prop_flat_map(move |(exact, tiny)| {
         // exact regime, one case in five: every step is k x 2^-64 with k < 2^20, so all partial sums stay exactly representable
-        let step = if exact && tiny == 0 { (0u64..(1 << 20)).prop_map(|k| k as f64 * 2f64.powi(-64)).boxed() } else { step_strategy(exact) };
+        let step = if exact && tiny == 0 {
+            (0u64..(1 << 20)).prop_map(|k| k as f64 * 2f64.powi(-64)).boxed()
+        } else if exact && tiny == 1 {
+            // k x 2^-1074: subnormal steps (the rate is raised to >= 1 below so that hz = step x rate stays exact)
+            (1u64..(1 << 30)).prop_map(f64::from_bits).boxed()
+        } else {
+            step_strategy(exact)
+        };
         (rate_strategy(exact), proptest::collection::vec(step, 1..6), 1u64..max_frames, any::<bool>(), prop_oneof![2 => Just(None), 1 => (0u64..200).prop_map(Some)]).prop_map(move |(rate, steps, frames, constant, hz_len)| {
+            let rate = if exact && tiny == 1 { rate.max(1.0) } else { rate };
             let mut hz: Vec<f64> = steps.iter().map(|s| s * rate).collect();
             // exact regime: step * rate must itself be exact and divide back exactly (power-of-two rate: yes)
             if constant {
@@ -290,12 +305,12 @@ pub fn osc_strategy(max_frames: u64) -> impl Strategy<Value = OscCase> {
 pub fn run(ctx: &mut Ctx) {
     ctx.set_rule(
         "oscillators: (rate, frequency sequence (one value = ConstHz path, several = per-frame Hz path), number of frames, exact flag); rates from powers of two, 44100, 48000, 1, 1e-3, 1e9 and random; \
-         frequencies as steps hz/rate in [0, 1e30] (beyond 2^63) incl. 0, >= rate, tiny (down to 1e-19, below 2^-52); exact regime = power-of-two rate (2^-4 .. 2^20) and dyadic steps, one case in five with every step k x 2^-64; runs up to 2000 frames plus long runs; noise: seeds 0, 1, 2^32, 2^63, u64::MAX - k and random; \
+         frequencies as steps hz/rate in [0, 1e30] (beyond 2^63) incl. 0, >= rate, tiny (down to 1e-19, below 2^-52); exact regime = power-of-two rate (2^-4 .. 2^20) and dyadic steps, one case in five with every step k x 2^-64 and one in five with subnormal steps k x 2^-1074 (the phase is then the exact f64 sum); runs up to 2000 frames plus long runs; noise: seeds 0, 1, 2^32, 2^63, u64::MAX - k and random; \
          non-trivial: step >= 1, varying frequency, run > 1e5 frames (oscillators); boundary seed (noise)",
     );
     ctx.assume("the phase used by an oscillator is observed through an identically driven Phase signal (same code, same frequency sequence); exact regime: phase_n == frac(sum of steps) exactly; general: circular distance <= sum over the frames so far of 2^-52 x (phase + step), i.e. one ulp of each addition");
     ctx.assume("sine compared with 2 sin(pi p) cos(pi p) within 1e-12, saw with 1-2p within 4 ulp, square exactly; how the noise counter behaves past u64::MAX is not asserted, only that every frame is produced, in range and reproducible");
-    for c in ["step >= 1 (frequency at or above the rate)", "varying frequency", "run longer than 1e5 frames", "exact regime", "seed within a run length of u64::MAX", "frequency signal exhausted during the run", "step below 2^-52 (but not zero)", "rate below 1"] {
+    for c in ["step >= 1 (frequency at or above the rate)", "varying frequency", "run longer than 1e5 frames", "exact regime", "seed within a run length of u64::MAX", "frequency signal exhausted during the run", "step below 2^-52 (but not zero)", "rate below 1", "subnormal steps (exact)"] {
         ctx.require_class(c);
     }
     ctx.prop("oscillators/random", ctx.pick(20_000, 100_000), osc_strategy(2000), check_osc);
